@@ -41,13 +41,14 @@ def prop(pid, level="model_checking"):
 
 SEQ_BASE = dict(AeadC="1", KdfC="1", ExpMenu='"few"', SweepFrom="0", SweepTo="0", Starts='"boundary"', Menu='"none"', BnKind='"leaf"', Emit="FALSE", LenVar="0",
                 MaxSeals="3", MaxOpens="0", MaxExports="0", RecordHist="FALSE", OvfFirstInOpen="TRUE", HistLen="0",
+                HugeSeals="FALSE",
                 FormMenu='{"alloc", "detached"}')
 
 
 SETUP_BASE = dict(KemSet="{32}", KdfSet="{1}", AeadSet="{1, 65535}", ModeSet="{0, 1, 2, 3}", Vals='"small"',
                   Perturb='{"none", "info", "psk", "pskid", "mode", "kdf", "aead", "skr", "enc", "pks", "shift"}',
                   Impost="FALSE", ShotsOnly="FALSE", ShotDl='"tamper"', Twin="FALSE", BadPkR='"none"', Shape='"all"', SweepMax="0", Emit="FALSE", EmitWiring="FALSE", Ordered="TRUE", MaxSeals="0", MaxOpens="0", MaxExports="0", MaxShots="0",
-                  RecordHist="FALSE", HistLen="0", FormMenu='{"alloc"}', OvfFirstInOpen="TRUE")
+                  RecordHist="FALSE", HistLen="0", FormMenu='{"alloc"}', OvfFirstInOpen="TRUE", HugeSeals="FALSE")
 
 
 def tla(v):
@@ -100,10 +101,12 @@ def c04(chk, tier):
         "carry-boundary set, <= 4 seals); the code is known to follow it on the replayed transitions/behaviours",
         "ciphertext bodies are compared with the oracle's pure-Python AES-GCM / ChaCha20 keystream (pinned by "
         "published vectors); contexts come from the raw-context hook so KEM and key schedule are not involved",
-        "counter values >= 2^24 are installed through the verif_set_seq_state hook"]
+        "counter values >= 2^24 are installed through the verif_set_seq_state hook",
+        "the failing-seal path (SealError) is reached with a plaintext of 2^36+1 (AES-GCM) / 2^38 (ChaCha20Poly1305) bytes "
+        "handed over as a lazily mapped zero region that the AEAD refuses by length before touching it"]
     # 1. the specification has the property (bounded, exhaustive)
     model_check(chk, "MC_Seq", "MC_Seq.cfg", "mc_counter",
-                seq_over(MaxSeals=4 if thorough else 3, AeadC=1),
+                seq_over(MaxSeals=4 if thorough else 3, AeadC=1, HugeSeals=True),
                 invariants=["NonceIsXor", "NoncesDistinct", "ConsecutiveSeqs", "CtLen"],
                 properties=["Latch", "Monotone"])
     apalache_counter(chk)
@@ -116,13 +119,13 @@ def c04(chk, tier):
                 batch = TransitionBatch(ses, exact_tags={"aeadct"}, label="seal-transition aead=%d bn=%s" % (aead, bn))
 
                 def on(tr, aead=aead, bn=bn, batch=batch):
-                    if tr["last"]["op"] != "seal":
+                    if tr["last"]["op"] not in ("seal", "seal_huge"):
                         return
                     batch.add(tr)
                     l = tr["last"]
                     chk.case(("t", aead, bn, tuple(l["pre"]["seq"]), l["pre"]["ovf"], l["form"], l["kind"]))
                 generate(chk, "MC_Seq", "MC_Seq.cfg", "gen_tr_%d_%s" % (aead, bn),
-                         seq_over(AeadC=aead, BnKind='"%s"' % bn, Emit=True, MaxSeals=3),
+                         seq_over(AeadC=aead, BnKind='"%s"' % bn, Emit=True, MaxSeals=3, HugeSeals=(bn == "leaf")),
                          invariants=[], on_value=on, workers=4)
                 if batch.n == 0:
                     raise ToolError("no seal transition generated for aead %d" % aead)
@@ -139,7 +142,7 @@ def c04(chk, tier):
                      invariants=["PrintHist"], on_value=onb, workers=1)
     finally:
         ses.close()
-    require_outcomes(chk, ['seal/ok', 'seal/err/MessageLimitReached'])
+    require_outcomes(chk, ['seal/ok', 'seal/err/MessageLimitReached', 'seal_huge/err/SealError'])
     chk.cov["exhaustive"] = True
     chk.cov["rule"] = ("every (start counter in the carry-boundary set x latch x form x AEAD x base-nonce pattern) seal "
                        "transition of the bounded model, replayed on hook-built contexts; distinct = distinct "
@@ -387,10 +390,17 @@ def c02(chk, tier):
                         json.dumps(last.get("plain"), sort_keys=True))
             setup_transitions(chk, ses, "gen_exact_%d" % kem,
                               setup_over(KemSet="{%d}" % kem, KdfSet="{1, 2, 3}", AeadSet="{1, 2, 3, 65535}",
-                                         Vals='"leaf"', Shape='"all"' if thorough else '"one"', Perturb='{"none"}',
+                                         Vals='"leaf"', Shape='"one"', Perturb='{"none"}',
                                          Emit=True, MaxSeals=2, MaxOpens=2, MaxExports=1,
                                          FormMenu='{"alloc", "detached"}'),
                               exact_tags=ALL, casekey=key)
+            if thorough:
+                # every combination of info / psk / psk_id values (lengths 0, 1, 32, 65, 160), one KDF and AEAD per KEM
+                setup_transitions(chk, ses, "gen_exact_all_%d" % kem,
+                                  setup_over(KemSet="{%d}" % kem, KdfSet=kset([rot([1, 2, 3], kem)]),
+                                             AeadSet=kset([rot([1, 2, 3, 65535], kem)]), Vals='"leaf"', Shape='"all"',
+                                             Perturb='{"none"}', Emit=True, MaxSeals=1, MaxOpens=1, MaxExports=1),
+                                  exact_tags=ALL, casekey=key)
             setup_transitions(chk, ses, "gen_exact_shot_%d" % kem,
                               setup_over(KemSet="{%d}" % kem, KdfSet="{1, 2, 3}" if thorough else "{%d}" % (1 + kem % 3),
                                          AeadSet="{1, 2, 3, 65535}", Vals='"leaf"', Shape='"one"', Perturb='{"none"}',
@@ -480,9 +490,15 @@ def c01(chk, tier):
             kdfs = [1, 2, 3] if thorough else [rot([1, 2, 3], i)]
             setup_transitions(chk, ses, "gen_rt_%d" % kem,
                               setup_over(KemSet="{%d}" % kem, KdfSet=kset(kdfs), AeadSet="{1, 2, 3}",
-                                         Vals='"leaf"', Shape='"all"' if thorough else '"one"', Perturb='{"none"}',
+                                         Vals='"leaf"', Shape='"one"', Perturb='{"none"}',
                                          Emit=True, MaxSeals=3, MaxOpens=3, FormMenu='{"alloc", "detached"}'),
                               casekey=tr_key("c01"))
+            if thorough:
+                setup_transitions(chk, ses, "gen_rt_all_%d" % kem,
+                                  setup_over(KemSet="{%d}" % kem, KdfSet=kset([rot([1, 2, 3], i + 1)]), AeadSet=kset([rot([1, 2, 3], i)]),
+                                             Vals='"leaf"', Shape='"all"', Perturb='{"none"}',
+                                             Emit=True, MaxSeals=2, MaxOpens=2, FormMenu='{"alloc", "detached"}'),
+                                  casekey=tr_key("c01a"))
         # message sizes straddling the AEAD block sizes, raw contexts, in-order delivery only
         for aead in (1, 2, 3):
             for lv in (range(12) if thorough else (0, 4, 8)):
@@ -535,9 +551,8 @@ def c07(chk, tier):
             setup_transitions(chk, ses, "gen_bind_%d" % kem,
                               setup_over(KemSet="{%d}" % kem, KdfSet="{1, 2, 3}" if thorough else kset([rot([1, 2, 3], i)]),
                                          AeadSet="{1, 3}",
-                                         Vals='"small"', Shape='"all"' if thorough else '"one"', Perturb=qset(C07_KINDS),
-                                         Emit=True, MaxSeals=2 if thorough else 1, MaxOpens=2 if thorough else 1,
-                                         MaxExports=2 if thorough else 1),
+                                         Vals='"small"', Shape='"all"' if (thorough and kem == 32) else '"one"', Perturb=qset(C07_KINDS),
+                                         Emit=True, MaxSeals=1, MaxOpens=1, MaxExports=2 if thorough else 1),
                               want=want, casekey=tr_key("c07"))
             # byte level: every bit of 32/65-byte info / psk / psk_id, appended and prepended zero bytes
             if not thorough and i != 0:
@@ -1039,8 +1054,8 @@ def c13(chk, tier):
         # setup / seal / open / export / single-shot with very long info, psk, psk_id, aad, plaintext, exporter context
         for i, kem in enumerate(KEMS):
             over = setup_over(KemSet="{%d}" % kem, KdfSet="{1, 2, 3}" if thorough else kset([rot([1, 2, 3], i)]),
-                              AeadSet="{1, 2, 3}" if thorough else kset([rot([1, 2, 3], i + 1)]),
-                              Vals='"long"', Shape='"all"' if thorough else '"one"', Perturb='{"none", "info"}', Emit=True,
+                              AeadSet=kset([rot([1, 2, 3], i + 1)]),
+                              Vals='"long"', Shape='"all"' if (thorough and kem == 32) else '"one"', Perturb='{"none", "info"}', Emit=True,
                               MaxSeals=1, MaxOpens=1, MaxExports=1, FormMenu='{"alloc", "detached"}')
             setup_transitions(chk, ses, "gen_long_%d" % kem, over, casekey=tr_key("c13"), compare_bytes=False)
         # setup can only fail with EncapError (sender) / DecapError (receiver): the X25519 keys that make it fail
